@@ -57,6 +57,8 @@ def module_global(ex, module, name):
 def module_attr(ex, modname, attr):
     if modname == 'math':
         if attr == 'inf':
+            if ex.ctx.opts.get('inf_symbol') is not None:
+                return VFloat(ex.ctx.opts['inf_symbol'])
             return VFloat(PINF)
         if attr == 'pi':
             return VFloat(Fraction('3.141592653589793'))
@@ -103,6 +105,26 @@ def find_method(ex, modcls, name):
         elif b in front.load(module).classes:
             r = find_method(ex, f'{module}.{b}', name)
             if r:
+                return r
+    return None
+
+
+def class_const_node(ex, modcls, name):
+    """(module, ast expr) of a class-level assignment, following single inheritance"""
+    module, cls, info = class_info(modcls)
+    if name in info['consts']:
+        return module, info['consts'][name]
+    for b in info['bases']:
+        if '.' in b:
+            modalias, bcls = b.rsplit('.', 1)
+            v = module_global(ex, module, modalias)
+            if isinstance(v, VModule):
+                r = class_const_node(ex, f'{v.name}.{bcls}', name)
+                if r is not None:
+                    return r
+        elif b in front.load(module).classes:
+            r = class_const_node(ex, f'{module}.{b}', name)
+            if r is not None:
                 return r
     return None
 
@@ -440,6 +462,10 @@ def b_tuple(ex, p, args, kwargs, node):
 def b_set(ex, p, args, kwargs, node):
     from . import seqops
     if not args:
+        if ex.ctx.opts.get('abstract_sets'):
+            from .absseq import HAbsSet
+            yield p, p.alloc(HAbsSet(lambda j: z3.BoolVal(False)), 'set')
+            return
         yield p, p.alloc(HSet([]), 'set')
         return
     for q, items in seqops.iterate(ex, p, args[0], node):
